@@ -118,10 +118,8 @@ def r4(ctx):
 
 
 def r5(ctx):
-    ctx.rule('C27-R5', 'PANIC: no unproven panic-capable construct reachable from KeySetProvider::load, KeySet::encode_cookie, KeySet::decode_cookie')
-    audit = panic.Audit(AUDIT)
-    panic.analyse(ctx, [KP + '::load', KS + '::encode_cookie', KS + '::decode_cookie', KP + '::rotate', KP + '::store'], audit, label='keyset')
+    panic.property_rule(ctx, 'C27', 'C27-R5')
 
 
-RULES = [r1, r2, r3, r4]  # r5 (PANIC) is enabled once the audit ledger for its roots is complete
-FLOORS = {'C27-R1': 4, 'C27-R2': 9, 'C27-R3': 3, 'C27-R4': 4}
+RULES = [r1, r2, r3, r4, r5]
+FLOORS = {'C27-R1': 4, 'C27-R2': 9, 'C27-R3': 3, 'C27-R4': 4, 'C27-R5': 30}
